@@ -265,7 +265,7 @@ theorem mergeFields_ok {mt : SelTree → SelTree → Except Panic SelTree} {N : 
     simp only [RelField] at hl ho
     obtain ⟨t1, ht1, hk1, _, hc1⟩ := hl
     obtain ⟨t2, fd2, ht2, hk2, _, hs2, hn2, _, _⟩ := ho
-    obtain ⟨_, hnm, hsm⟩ := hcoh.1 t1 t2 (mA _ _ _ (pu_all ht1)) (mB _ _ _ (pu_all ht2)) (by rw [hk1, hk2, hk])
+    obtain ⟨_, hnm, hsm⟩ := cohAt_full hcoh t1 t2 (mA _ _ _ (pu_all ht1)) (mB _ _ _ (pu_all ht2)) (by rw [hk1, hk2, hk])
     split at hc1
     · rename_i htn; rw [hnm, hn2] at htn; cases htn
     · rw [hc1.2.1, hs2] at hsm; cases hsm
@@ -291,7 +291,7 @@ theorem mergeFields_ok {mt : SelTree → SelTree → Except Panic SelTree} {N : 
       simp only [RelField] at h1' h2'
       obtain ⟨t1, fd1, ht1, hk1, _, _, _, hf1, hr1⟩ := h1'
       obtain ⟨t2, fd2, ht2, hk2, _, _, _, hf2, hr2⟩ := h2'
-      have hsame := (hcoh.1 t1 t2 (monoA _ _ _ (pu_all ht1)) (monoB _ _ _ (pu_all ht2)) (by rw [hk1, hk2, hname])).2.1
+      have hsame := (cohAt_full hcoh t1 t2 (monoA _ _ _ (pu_all ht1)) (monoB _ _ _ (pu_all ht2)) (by rw [hk1, hk2, hname])).2.1
       rw [← hsame, hf1] at hf2; cases hf2
       obtain ⟨Tm, hTm⟩ := MP T T' fd1.ty _ _ hr1 hr2 (by
         intro d
